@@ -46,7 +46,7 @@ def cases(draw, big_ok=False):
             trees.append(base)  # identical whole directory
         else:
             trees.append(draw(gen.trees(max_files=4, max_depth=2, content=content)))
-    if big_ok and draw(st.integers(0, 5)) == 0:
+    if draw(st.integers(0, 5 if big_ok else 11)) == 0:
         # >= 2 files above the 1 MiB threshold per writer: the library's own parallel hashing pool
         bigs = [draw(gen.large_content()), draw(gen.large_content())]
         trees = [dict(t, **{"big0": bigs[0], "big1": bigs[draw(st.integers(0, 1))]}) for t in trees]
@@ -72,7 +72,10 @@ def writer_fn(case, d, i, shared_state=None):
     from dvc_data.hashfile.transfer import transfer
 
     def fn():
+        import dvc_data.hashfile.build as _b
         from dvc_data.hashfile.hash_info import HashInfo
+
+        _shape_pool(_b, case)
         from dvc_data.index.build import build as ibuild
         from dvc_data.index.save import md5, save
 
@@ -116,6 +119,33 @@ def prepare_writer(case, d, i, tree):
         with open(os.path.join(d, f"request{i}.txt"), "w", encoding="utf-8") as f:
             f.write(obj.hash_info.value + "\n")
     return flat
+
+
+_POOL_PATCHED = [False]
+_POOL_DELAYS = [[0]]
+
+
+def _shape_pool(_b, case):
+    """Delay large-file hashing jobs by drawn amounts so that the pool's completion order differs from
+    its submission order (schedule shaping only - the oracle does not depend on timing)."""
+    _POOL_DELAYS[0] = case.get("delays") or [0]
+    if _POOL_PATCHED[0]:
+        return
+    orig = _b.hash_file
+    count = [0]
+
+    def hash_file(path, fs, name, state=None, callback=None, info=None):
+        size = (info or {}).get("size") or 0
+        if size > 2**20:
+            count[0] += 1
+            delays = _POOL_DELAYS[0]
+            ms = delays[count[0] % len(delays)] if count[0] % 2 else 0
+            if ms:
+                time.sleep(ms * 0.004)
+        return orig(path, fs, name, state=state, callback=callback, info=info)
+
+    _b.hash_file = hash_file
+    _POOL_PATCHED[0] = True
 
 
 _WARM = False
